@@ -83,8 +83,11 @@ class PEval(object):
                 continue
             a = strip(n.kids[1 + i])
             if a.k == 'un' and a.op == '&' and strip(a.kids[0]).k == 'ref' and strip(a.kids[0]).refk in ('VarDecl', 'ParmVarDecl'):
-                outv['*' + prm[0]] = strip(a.kids[0]).ref
-                continue
+                lt = strip(a.kids[0]).cty
+                if int_type(lt) is not None or is_pointer(lt):
+                    outv['*' + prm[0]] = strip(a.kids[0]).ref
+                    continue
+                # `&local_struct`: the callee's p->f is the caller's local.f (re-rooted like any other record passed by address)
             c = self.cn.canon(nid, a)
             if c is None:
                 continue
